@@ -1,5 +1,6 @@
 import KoordVerif.Model.C09
 import KoordVerif.Model.C09Plugin
+import KoordVerif.Model.C09Reconcile
 /-
 C09 — property theorems (DESIGN.md §4 C09).  The float64 operations are a parameter `F`; the
 theorems assume only the algebraic facts collected in `FloatOK` (the harness tests them on every
@@ -1306,5 +1307,370 @@ theorem zReq_sum_nonneg (F : FloatOps) (hF : FloatOK F) (zn i : Nat) (d : Dim) (
   apply zoneShare_nonneg F hF zn _ i _ hzn
   have := h p hp
   cases d <;> simp [milli] <;> omega
+
+/-! ## EXTENSION 5 — Prepare is idempotent on the NodeResource; one reconcile prepares 2–3 times -/
+
+theorem milliToValue_storeInt (v : Int) : milliToValue (storeInt v) = v := by
+  unfold milliToValue storeInt; omega
+
+theorem milliToValue_roundMilli (m : Int) : milliToValue (roundMilli m) = milliToValue m := by
+  unfold roundMilli milliToValue; omega
+
+theorem roundMilli_idem (m : Int) : roundMilli (roundMilli m) = roundMilli m := by
+  unfold roundMilli milliToValue; omega
+
+theorem roundMilli_storeInt (v : Int) : roundMilli (storeInt v) = storeInt v := by
+  unfold roundMilli milliToValue storeInt; omega
+
+/-- PrepareNodeForResource, one resource: running it again on the NodeResource it left behind gives the same node
+    amount and leaves the same NodeResource (the only write through the stored pointer is the idempotent rounding). -/
+theorem prepareStored_idempotent (F : FloatOps) (amp : Option Int) (q : Option Int) (reset : Bool) :
+    prepareStored F amp (prepareStored F amp q reset).2 reset = prepareStored F amp q reset := by
+  cases q with
+  | none => rfl
+  | some m =>
+    cases reset with
+    | true => simp [prepareStored]
+    | false =>
+      cases amp with
+      | none => simp [prepareStored, milliToValue_roundMilli, roundMilli_idem]
+      | some r =>
+        by_cases h : r > 100
+        · simp [prepareStored, h]
+        · simp [prepareStored, h, milliToValue_roundMilli, roundMilli_idem]
+
+/-- the amplified quantity never reaches the NodeResource: after PrepareNodeForResource the stored batch-cpu is the
+    calculated one (rounded), whatever the ratio. -/
+theorem prepareStored_keeps_stored (F : FloatOps) (amp : Option Int) (m : Int) (reset : Bool) :
+    (prepareStored F amp (some m) reset).2 = some m ∨ (prepareStored F amp (some m) reset).2 = some (roundMilli m) := by
+  cases reset with
+  | true => left; simp [prepareStored]
+  | false =>
+    cases amp with
+    | none => right; simp [prepareStored]
+    | some r =>
+      by_cases h : r > 100
+      · left; simp [prepareStored, h]
+      · right; simp [prepareStored, h]
+
+theorem batchPrepareNR_idempotent (F : FloatOps) (an : Bool) (tp : ThirdParty) (nr : NRes) :
+    batchPrepareNR F an tp (batchPrepareNR F an tp nr).2 = batchPrepareNR F an tp nr := by
+  simp only [batchPrepareNR, prepareStored_idempotent]
+
+/-- `prepare_idempotent`: the whole prepare chain (cpunormalization, mid, batch) run a second time on the NodeResource
+    it left behind writes the same node amounts and leaves the same NodeResource. -/
+theorem prepare_idempotent (F : FloatOps) (nr : NRes) : prepareAll F (prepareAll F nr).2 = prepareAll F nr := by
+  simp only [prepareAll, batchPrepareNR, prepareStored_idempotent]
+
+/-- the prepare chain never touches Resets / the ratio annotation of the NodeResource. -/
+theorem prepareAll_keeps_flags (F : FloatOps) (nr : NRes) :
+    (prepareAll F nr).2.resetB = nr.resetB ∧ (prepareAll F nr).2.resetM = nr.resetM ∧ (prepareAll F nr).2.ratio = nr.ratio := by
+  simp [prepareAll, batchPrepareNR]
+
+/-- k+1 runs of the prepare chain on one NodeResource. -/
+def prepareIter (F : FloatOps) : Nat → NRes → Pub × NRes
+  | 0, nr => prepareAll F nr
+  | k + 1, nr => prepareIter F k (prepareAll F nr).2
+
+/-- however often a reconcile prepares (the code: 1 + status + meta times), the node amounts are those of ONE run. -/
+theorem prepareIter_eq (F : FloatOps) (k : Nat) (nr : NRes) : prepareIter F k nr = prepareAll F nr := by
+  induction k generalizing nr with
+  | zero => rfl
+  | succ k ih => simp only [prepareIter, ih, prepare_idempotent]
+
+/-- one reconcile, NodeResource threaded through all prepare call sites = `reconcileStep` on the amounts of ONE
+    prepare: every theorem about `reconcileStep` / `runHist` holds for the threaded reconcile. -/
+theorem reconcileNR_eq_step (F : FloatOps) (D : DiffOps) (thr interval now : Int) (st : NState) (nr : NRes) :
+    (reconcileNR F D thr interval now st nr).1.r = reconcileStep D thr interval now st.r (prepareAll F nr).1 := by
+  simp only [reconcileNR, reconcileStep, prepare_idempotent]
+  split <;> rfl
+
+/-- the NodeResource a reconcile leaves behind is the one a single prepare leaves (nothing accumulates in it). -/
+theorem reconcileNR_nr (F : FloatOps) (D : DiffOps) (thr interval now : Int) (st : NState) (nr : NRes) :
+    (reconcileNR F D thr interval now st nr).2 = (prepareAll F nr).2 := by
+  have h2 : (prepareAll F (prepareAll F nr).2).2 = (prepareAll F nr).2 := by rw [prepare_idempotent]
+  simp only [reconcileNR]
+  split <;> split <;> simp [h2]
+
+/-- histories: the threaded reconcile publishes exactly what `runHist` publishes for the once-prepared amounts. -/
+theorem runHistNR_eq_runHist (F : FloatOps) (D : DiffOps) (st : NState) (rs : List RoundNR) :
+    (runHistNR F D st rs).r =
+      runHist D st.r (rs.map (fun r => { thr := r.thr, interval := r.interval, now := r.now, computed := (prepareAll F r.nr).1 })) := by
+  induction rs generalizing st with
+  | nil => rfl
+  | cons r rest ih =>
+    simp only [runHistNR, List.map_cons, runHist]
+    rw [ih, reconcileNR_eq_step]
+
+/-! ### the NodeResource of a round and what one prepare makes of it -/
+
+theorem prepareStored_storeInt (F : FloatOps) (amp : Option Int) (q : Option Int) (reset : Bool) :
+    (prepareStored F amp (q.map storeInt) reset).1 = (prepareRes q reset).map (amplify F amp) := by
+  cases q with
+  | none => rfl
+  | some v =>
+    cases reset with
+    | true => simp [prepareStored, prepareRes]
+    | false =>
+      cases amp with
+      | none => simp [prepareStored, prepareRes, amplify, milliToValue_storeInt]
+      | some r =>
+        by_cases h : r > 100
+        · simp [prepareStored, prepareRes, amplify, h, storeInt]
+        · simp [prepareStored, prepareRes, amplify, h, milliToValue_storeInt]
+
+theorem amplify_none (F : FloatOps) (v : Int) : amplify F none v = v := rfl
+
+theorem batchFinish_eq (F : FloatOps) (r : Option Int) (an : Bool) (tp : ThirdParty) (qc qm : Option Int) (reset : Bool) :
+    batchFinish an tp (prepareBatchCPU F r qc reset) (prepareRes qm reset) = batchPrepare F r an tp qc qm reset := rfl
+
+/-- Prepare on the NodeResource object agrees with the value-level `batchPrepare` for the integer quantities the
+    plugins store. -/
+theorem batchPrepareNR_storeInt (F : FloatOps) (an : Bool) (tp : ThirdParty) (nr : NRes) (qc qm : Option Int)
+    (hc : nr.bc = qc.map storeInt) (hm : nr.bm = qm.map storeInt) :
+    (batchPrepareNR F an tp nr).1 = batchPrepare F nr.ratio.amp an tp qc qm nr.resetB := by
+  have h2 : (prepareStored F none (qm.map storeInt) nr.resetB).1 = prepareRes qm nr.resetB := by
+    rw [prepareStored_storeInt]
+    cases prepareRes qm nr.resetB <;> simp [amplify]
+  simp only [batchPrepareNR, hc, hm, prepareStored_storeInt, h2]
+  rfl
+
+/-- what ONE prepare writes for the NodeResource of a round = `computedPubR` (ratio applied once). -/
+theorem prepareAll_nresOf (F : FloatOps) (k : PrioConsts) (df : MidDefaults) (en : Bool) (s : Strategy) (ms : MidStrategy)
+    (n : NodeIn) (allocNil : Bool) (hs : List HostApp) (pods : List PodIn) (mets : List Metric) (mm : MidMetric)
+    (hasUpd : Bool) (now upd : Int) (ratio : RatioAnno) :
+    (prepareAll F (nresOf F k df en s ms n allocNil hs pods mets mm hasUpd now upd ratio)).1 =
+      computedPubR F k df en s ms n allocNil hs pods mets mm hasUpd now upd ratio := by
+  cases en with
+  | false => simp [nresOf, computedPubR, prepareAll, batchPrepareNR, prepareStored, batchFinish, Pub.empty]
+  | true =>
+    simp only [nresOf, computedPubR, Bool.not_true, Bool.false_eq_true, if_false]
+    generalize midCalculate F k df ms s.degradeMin n allocNil hs pods mm hasUpd now upd = mo
+    generalize calculate F k s n hs pods mets [] hasUpd now upd = bo
+    cases bo with
+    | degraded =>
+      cases mo <;>
+        simp [prepareAll, batchPrepareNR, prepareStored, batchFinish, batchOutQuantities, midPrepare, batchPrepare,
+          prepareBatchCPU, prepareRes, milliToValue_storeInt]
+    | batch c m zs =>
+      have hb := fun (nr : NRes) (h1 : nr.bc = (some c).map storeInt) (h2 : nr.bm = (some m).map storeInt) =>
+        batchPrepareNR_storeInt F false .absent nr (some c) (some m) h1 h2
+      cases mo with
+      | error =>
+        simp only [prepareAll, batchOutQuantities, midPrepare, prepareStored]
+        rw [hb _ rfl rfl]
+      | degraded =>
+        simp only [prepareAll, batchOutQuantities, midPrepare, prepareStored]
+        rw [hb _ rfl rfl]
+      | mid mc mmem =>
+        simp only [prepareAll, batchOutQuantities, midPrepare, prepareStored, Bool.false_eq_true, if_false,
+          milliToValue_storeInt]
+        rw [hb _ rfl rfl]
+
+theorem computedPubR_absent (F : FloatOps) (k : PrioConsts) (df : MidDefaults) (en : Bool) (s : Strategy) (ms : MidStrategy)
+    (n : NodeIn) (allocNil : Bool) (hs : List HostApp) (pods : List PodIn) (mets : List Metric) (mm : MidMetric)
+    (hasUpd : Bool) (now upd : Int) :
+    computedPubR F k df en s ms n allocNil hs pods mets mm hasUpd now upd .absent =
+      computedPub F k df en s ms n allocNil hs pods mets mm hasUpd now upd := rfl
+
+/-- stale / missing NodeMetric or a disabled config withdraws all four resources whatever the ratio says. -/
+theorem computedR_stale_empty (F : FloatOps) (k : PrioConsts) (df : MidDefaults) (en : Bool) (s : Strategy) (ms : MidStrategy)
+    (n : NodeIn) (allocNil : Bool) (hs : List HostApp) (pods : List PodIn) (mets : List Metric) (mm : MidMetric)
+    (hasUpd : Bool) (now upd : Int) (ratio : RatioAnno) (h : en = false ∨ hasUpd = false ∨ now > upd + s.degradeMin * 60) :
+    computedPubR F k df en s ms n allocNil hs pods mets mm hasUpd now upd ratio = Pub.empty := by
+  unfold computedPubR
+  cases en
+  · rfl
+  · have h' : hasUpd = false ∨ now > upd + s.degradeMin * 60 := by
+      rcases h with h | h
+      · cases h
+      · exact h
+    have h1 := mid_stale_withdrawn F k df ms s.degradeMin n allocNil hs pods mm hasUpd now upd h'
+    have h2 := degrade_resets F k s n hs pods mets [] hasUpd now upd h'
+    simp [h1, h2, batchOutQuantities, batchPrepare, prepareBatchCPU, prepareRes, Pub.empty]
+
+/-- fresh metrics: batch-cpu on the node is the calculated amount amplified ONCE, batch-memory and the mid amounts are
+    the calculated ones. -/
+theorem computedR_fresh (F : FloatOps) (hF : FloatOK F) (k : PrioConsts) (df : MidDefaults) (s : Strategy) (ms : MidStrategy)
+    (n : NodeIn) (hs : List HostApp) (pods : List PodIn) (mets : List Metric) (mm : MidMetric)
+    (now upd : Int) (ratio : RatioAnno) (h : now ≤ upd + s.degradeMin * 60)
+    (hc : 0 ≤ nodeBatch F k s n hs pods mets .cpu) (hm : 0 ≤ nodeBatch F k s n hs pods mets .mem) :
+    computedPubR F k df true s ms n false hs pods mets mm true now upd ratio =
+      { bc := some (amplify F ratio.amp (nodeBatch F k s n hs pods mets .cpu)), bm := some (nodeBatch F k s n hs pods mets .mem),
+        mc := some (midAmount F k df ms n hs pods mm .cpu), mm := some (midAmount F k df ms n hs pods mm .mem) } := by
+  have hd : isDegradeNeeded true now upd s.degradeMin = false := by
+    unfold isDegradeNeeded
+    have : ¬ (now > upd + s.degradeMin * 60) := by omega
+    simp [this]
+  have h1 := mid_fresh_published F k df ms s.degradeMin n hs pods mm now upd h
+  have ha := amplify_nonneg F hF ratio.amp _ hc
+  have hc' : ¬ (amplify F ratio.amp (nodeBatch F k s n hs pods mets .cpu) < 0) := by omega
+  have hm' : ¬ (nodeBatch F k s n hs pods mets .mem < 0) := by omega
+  simp [computedPubR, h1, calculate, hd, batchOutQuantities, batchPrepare, prepareBatchCPU, prepareRes, hc', hm']
+
+/-! ### "× ratio exactly once" as an inequality -/
+
+/-- further assumptions on float64 `int64(float64(v) * (k/100))`, needed only for ratios above 100 %:
+    monotone in v and never above the exact product (checked by the prepare harness on every generated input). -/
+structure AmpOK (F : FloatOps) : Prop where
+  mul_mono_v : ∀ a b k, a ≤ b → 0 ≤ k → F.mulPct a k ≤ F.mulPct b k
+  mul_le_exact : ∀ v k, 0 ≤ v → 0 ≤ k → 100 * F.mulPct v k ≤ v * k
+
+theorem exactOps_ampOK : AmpOK exactOps where
+  mul_mono_v a b k h hk := by
+    show a * k / 100 ≤ b * k / 100
+    have : a * k ≤ b * k := Int.mul_le_mul_of_nonneg_right h hk
+    omega
+  mul_le_exact v k _ _ := by
+    show 100 * (v * k / 100) ≤ v * k
+    omega
+
+/-- an unparsable, absent or ≤ 1.0 ratio never amplifies. -/
+theorem amplify_inactive (F : FloatOps) (a : RatioAnno) (v : Int) (h : ∀ r, a = .pct r → r ≤ 100) :
+    amplify F a.amp v = v := by
+  cases a with
+  | absent => rfl
+  | bad => rfl
+  | pct r =>
+    have := h r rfl
+    have h' : ¬ (r > 100) := by omega
+    simp [RatioAnno.amp, amplify, h']
+
+/-- ratio r/100 > 1: the node amount is below `bound · r/100 + 1` for EVERY bound on the calculated amount —
+    the documented formula times the ratio, rounded up, applied once (r² / 100² is impossible). -/
+theorem amplify_once_le (F : FloatOps) (hA : AmpOK F) (r v bound : Int) (hv : 0 ≤ v) (hr : 100 < r) (hb : v ≤ bound) :
+    100 * amplify F (some r) v < bound * r + 100 := by
+  have h1 : ¬ (r ≤ 100) := by omega
+  have h2 := hA.mul_le_exact (1000 * v) r (by omega) (by omega)
+  have h3 : v * r ≤ bound * r := Int.mul_le_mul_of_nonneg_right hb (by omega)
+  have h4 : 1000 * v * r = 1000 * (v * r) := by rw [Int.mul_assoc]
+  simp only [amplify, gt_iff_lt, hr, if_true]
+  unfold milliToValue
+  omega
+
+/-- amplification is monotone in the calculated amount, so every antitone law of `nodeBatch` carries over to the node. -/
+theorem amplify_mono (F : FloatOps) (hA : AmpOK F) (r : Option Int) (v w : Int) (h : v ≤ w)
+    (hr : ∀ x, r = some x → 0 ≤ x) : amplify F r v ≤ amplify F r w := by
+  cases r with
+  | none => exact h
+  | some x =>
+    simp only [amplify]
+    split
+    · have := hA.mul_mono_v (1000 * v) (1000 * w) x (by omega) (hr x rfl)
+      unfold milliToValue
+      omega
+    · exact h
+
+/-- the statement's bound on the node's batch-cpu under cpu normalization (policies usage / maxUsageRequest):
+    100 · published < (capacity − margin − max(system usage + HP host apps, reservation) − HP(policy)) · r + 100. -/
+theorem batch_cpu_ratio_once (F : FloatOps) (hF : FloatOK F) (hA : AmpOK F) (k : PrioConsts) (s : Strategy) (n : NodeIn)
+    (hs : List HostApp) (pods : List PodIn) (ms : List Metric) (r : Int) (hr : 100 < r)
+    (hpol : s.pol .cpu ≠ .request)
+    (hpos : 0 ≤ n.cap .cpu - safetyMargin F s .cpu (n.cap .cpu) - max (n.sys .cpu + hostHPUsed k .batch hs .cpu) (nodeReserved n .cpu)
+              - literalHP (s.pol .cpu) (hpReq .cpu (resolvePods pods (metricMap ms))) (hpUsed .cpu (resolvePods pods (metricMap ms)) (dangling pods (metricMap ms)))
+                  (hpMax .cpu (resolvePods pods (metricMap ms)) (dangling pods (metricMap ms))))
+    (hcap : ∀ c, s.cap .cpu = some c → 0 ≤ c) (hcapC : 0 ≤ n.cap .cpu) :
+    100 * amplify F (some r) (nodeBatch F k s n hs pods ms .cpu) <
+      (n.cap .cpu - safetyMargin F s .cpu (n.cap .cpu) - max (n.sys .cpu + hostHPUsed k .batch hs .cpu) (nodeReserved n .cpu)
+        - literalHP (s.pol .cpu) (hpReq .cpu (resolvePods pods (metricMap ms))) (hpUsed .cpu (resolvePods pods (metricMap ms)) (dangling pods (metricMap ms)))
+            (hpMax .cpu (resolvePods pods (metricMap ms)) (dangling pods (metricMap ms)))) * r + 100 := by
+  have hnn := batch_nonneg F hF k s n hs pods ms .cpu hcapC hcap
+  have hub := batch_upper F k s n hs pods ms .cpu hpol
+  rw [Int.max_eq_left hpos] at hub
+  exact amplify_once_le F hA r _ _ hnn hr hub
+
+/-! ### the ratio annotation on the node (meta path) -/
+
+/-- a well-formed annotation compared with itself never asks for a meta patch. -/
+theorem needSyncMeta_self (a : RatioAnno) (h : a.nodeErr = false) : needSyncMeta a a = false := by
+  cases a with
+  | absent => rfl
+  | bad => simp [RatioAnno.nodeErr] at h
+  | pct r =>
+    simp only [needSyncMeta, h, Bool.false_eq_true, if_false, ratioDiff]
+    have h1 : ¬ (r > r + 1) := by omega
+    have h2 : ¬ (r < r - 1) := by omega
+    simp [h1, h2]
+
+/-- when the meta patch runs, the node carries the NodeResource's ratio afterwards (or keeps its own when the
+    NodeResource has none); otherwise the annotation is untouched. -/
+theorem reconcileNR_ratio (F : FloatOps) (D : DiffOps) (thr interval now : Int) (st : NState) (nr : NRes) :
+    (reconcileNR F D thr interval now st nr).1.ratio =
+      if needSyncMeta st.ratio (prepareRatio nr st.ratio) then prepareRatio nr st.ratio else st.ratio := by
+  have hk := prepareAll_keeps_flags F nr
+  have hk2 := prepareAll_keeps_flags F (prepareAll F nr).2
+  simp only [reconcileNR]
+  split
+  · split
+    · simp [prepareRatio, hk2.2.2, hk.2.2]
+    · simp [prepareRatio, hk.2.2]
+  · rfl
+
+/-- a valid, different ratio in the NodeResource is installed by that very reconcile, and the next reconcile with the
+    same NodeResource ratio does not patch again. -/
+theorem reconcileNR_ratio_converges (F : FloatOps) (D : DiffOps) (thr interval now : Int) (st : NState) (nr : NRes) (r : Int)
+    (hr : nr.ratio = .pct r) (hpos : 0 < r) (hold : st.ratio.nodeErr = false)
+    (hdiff : ∀ o, st.ratio = .pct o → ratioDiff o r = true) :
+    (reconcileNR F D thr interval now st nr).1.ratio = .pct r := by
+  rw [reconcileNR_ratio]
+  have hp : prepareRatio nr st.ratio = .pct r := by simp [prepareRatio, hr]
+  have hne : (RatioAnno.pct r).nodeErr = false := by
+    have : ¬ (r ≤ 0) := by omega
+    simp [RatioAnno.nodeErr, this]
+  rw [hp]
+  cases hs : st.ratio with
+  | absent =>
+    have : ¬ (r ≤ 0) := by omega
+    simp [needSyncMeta, RatioAnno.nodeErr, this]
+  | bad => rw [hs] at hold; simp [RatioAnno.nodeErr] at hold
+  | pct o =>
+    rw [hs] at hold
+    simp [needSyncMeta, hold, hne, hdiff o hs]
+
+/-- the origin annotation travels with the meta patch only; when it is patched it is the origin of ONE prepare —
+    max(amount, 0) of the once-prepared batch amounts — although it is computed by the third prepare of the round. -/
+theorem reconcileNR_origin (F : FloatOps) (D : DiffOps) (thr interval now : Int) (st : NState) (nr : NRes) :
+    (reconcileNR F D thr interval now st nr).1.origin =
+      if needSyncMeta st.ratio (prepareRatio nr st.ratio) then prepareOrigin F nr else st.origin := by
+  have h1 : prepareOrigin F (prepareAll F nr).2 = prepareOrigin F nr := by
+    simp only [prepareOrigin, prepareAll, batchPrepareNR, prepareStored_idempotent]
+  have h2 : prepareOrigin F (prepareAll F (prepareAll F nr).2).2 = prepareOrigin F nr := by
+    rw [prepare_idempotent, h1]
+  simp only [reconcileNR]
+  split
+  · split
+    · simp [h2]
+    · simp [h1]
+  · rfl
+
+/-- the origin annotation of a prepare is (max batch-cpu 0, max batch-memory 0) of the amounts that prepare writes. -/
+theorem prepareOrigin_eq (F : FloatOps) (nr : NRes) :
+    prepareOrigin F nr = some (max ((prepareAll F nr).1.bc.getD (-1)) 0, max ((prepareAll F nr).1.bm.getD (-1)) 0) := by
+  simp only [prepareOrigin, prepareAll, batchPrepareNR, batchFinish]
+  split <;> simp
+
+/-! ### why the threading matters: the seeded in-place variant is NOT idempotent -/
+
+/-- `*q = MultiplyMilliQuant(*q, ratio)` (amplification written through the stored pointer): calculated 40000, ratio
+    1.20 — the first prepare puts 48000 on the node, the second 57600, the third 69120. -/
+theorem inplace_scaling_not_idempotent :
+    ¬ (∀ (amp q : Option Int), prepareStoredInPlace exactOps amp (prepareStoredInPlace exactOps amp q false).2 false
+        = prepareStoredInPlace exactOps amp q false) := by
+  intro h
+  have := h (some 120) (some 40000000)
+  revert this
+  decide
+
+example : (prepareStoredInPlace exactOps (some 120) (some 40000000) false).1 = some 48000 := by decide
+example : (prepareStoredInPlace exactOps (some 120) (prepareStoredInPlace exactOps (some 120) (some 40000000) false).2 false).1
+    = some 57600 := by decide
+example : (prepareStored exactOps (some 120) (prepareStored exactOps (some 120) (some 40000000) false).2 false).1
+    = some 48000 := by decide
+
+/-- non-vacuity: a reconcile that prepares three times (first sync + new ratio) publishes the once-amplified amount. -/
+def exNR : NRes := { bc := some 40000000, bm := some 5000, mc := some 1000, mm := some 2000, resetB := false, resetM := false, ratio := .pct 120 }
+example : (reconcileNR exactOps exactDiff 100 300 0 NState.init exNR).1 =
+    { r := { pub := { bc := some 48000, bm := some 5, mc := some 1, mm := some 2 }, lastSync := some 0 }, ratio := .pct 120,
+      origin := some (48000, 5) } := by decide
 
 end KoordVerif.C09
